@@ -67,6 +67,12 @@ def energy_points(Zs, edges, tier, rng):
             for f in (1 - 1e-9, 1 + 1e-9) + ((0.99, 1.01) if tier == 'thorough' else ()):
                 Es.add(e * f)
             Es.add(e)                                     # exactly on the edge: not above it
+            for q in (1, 4):                              # ... and its neighbours among the doubles (a tolerance in the comparison shows only here)
+                lo_, hi_ = e, e
+                for _ in range(q):
+                    lo_, hi_ = float(np.nextafter(lo_, 0.0)), float(np.nextafter(hi_, np.inf))
+                Es.add(lo_); Es.add(hi_)
+            Es.add(e + 5e-13); Es.add(e + 2e-12); Es.add(e - 5e-13)
         se = sorted(set(ee))
         for a, b in zip(se, se[1:]):
             Es.add((a + b) / 2)
